@@ -26,6 +26,7 @@ from hypothesis import strategies as st
 
 # one chain: of any two names one is a (word-aligned) suffix of the other
 AFFIX_WORDS = ["Pet", "NewPet", "OldNewPet", "VeryOldNewPet", "MyVeryOldNewPet", "NotMyVeryOldNewPet", "AbsolutelyNotMyVeryOldNewPet"]
+PREFIX_WORDS = ["Road", "RoadSign", "RoadSignPost", "RoadSignPostCode", "RoadSignPostCodeArea", "RoadSignPostCodeAreaMap"]   # each the beginning of the next
 COMP_WORDS = ["Alpha", "Bravo", "Charlie", "Delta", "Echo", "Foxtrot", "Golf", "Hotel", "India", "Juliet", "Kilo", "Lima"]
 PROP_WORDS = ["mike", "november", "oscar", "papa", "quebec", "romeo", "sierra", "tango", "uniform", "victor",
               "whiskey", "xray", "yankee", "zulu"]
@@ -368,7 +369,7 @@ def components(draw, prof, min_schemas=1):
     if prof.get("affix_names") and draw(st.integers(1, 3 if prof["affix_names"] is True else int(prof["affix_names"]))) == 1:
         # names of which one is a suffix of another (Pet / NewPet / OldNewPet): string tests on names and references are easy to
         # get wrong exactly there
-        names = draw(st.lists(st.sampled_from(AFFIX_WORDS), min_size=n, max_size=n, unique=True))
+        names = draw(st.lists(st.sampled_from(draw(st.sampled_from([AFFIX_WORDS, AFFIX_WORDS, PREFIX_WORDS]))[:max(n, 6)]), min_size=n, max_size=n, unique=True))
         # allOf parents are chosen among earlier positions: longest first makes every child's name a suffix of its parent's
         names.sort(key=len, reverse=True)
     out = []
